@@ -277,7 +277,11 @@ func parent(prop, tier, only string) int {
 		fmt.Fprintln(os.Stderr, err)
 		return 2
 	}
-	defer os.RemoveAll(outdir)
+	if os.Getenv("VCHECK_KEEP") == "" {
+		defer os.RemoveAll(outdir)
+	} else {
+		fmt.Println("KEEPING", outdir)
+	}
 	replayDir := filepath.Join(verifDir(), "replays")
 	os.MkdirAll(replayDir, 0o755)
 
